@@ -273,6 +273,10 @@ impl<F: Float, D: Data<Elem = F>> PredictInplace<ArrayBase<D, Ix2>, Array1<F>>
                     } else {
                         y[i] = y_min;
                     }
+                } else {
+                    // no knot compares `>=` to the value: the value is unordered (NaN).
+                    // Propagate it instead of leaving whatever the target buffer held.
+                    y[i] = val;
                 }
             }
         }
